@@ -25,9 +25,12 @@ SYM6 = (0, 1, 2, 3, 4, 5)
 
 
 def spaces(tier):
-    sp = [((1, 1), SYM6), ((1, 3), SYM6), ((2, 2), SYM6), ((2, 3), SYM6), ((3, 3), SYM4)]
+    """(shape, symbols[, npixels list]) -- the binary 4x5 space exists for pruning defects that need two
+    components with interleaved bounding boxes and an npixels larger than a 3x3 box."""
+    sp = [((1, 1), SYM6), ((1, 3), SYM6), ((2, 2), SYM6), ((2, 3), SYM6), ((3, 3), SYM4),
+          ((4, 5), (0, 2), (10,))]
     if tier == 'thorough':
-        sp += [((2, 4), SYM6), ((3, 4), SYM4), ((4, 4), (0, 2))]
+        sp = sp[:-1] + [((2, 4), SYM6), ((3, 4), SYM4), ((4, 4), (0, 2)), ((4, 5), (0, 2), (2, 5, 10, 13))]
     return sp
 
 
@@ -77,12 +80,13 @@ def expected(mask, conn, npixels):
 
 
 VALS = {0: -1.0, 1: 0.0, 2: 1.0, 3: np.nan, 4: np.inf, 5: 1.0}
+_VALS_ARR = np.array([VALS[k] for k in range(6)])
 
 
 def realise(code, shape, form, seed):
     """-> data, threshold, mask"""
     code = np.array(code).reshape(shape)
-    off = np.vectorize(VALS.get)(code).astype(float)
+    off = _VALS_ARR[code]
     mask = (code == 5) if (code == 5).any() else None
     if form == 'scalar':
         thr = 2.5
@@ -134,7 +138,7 @@ def check_case(acc, code, shape, conn, npixels, form, seed, detect_sources, Segm
     if not np.issubdtype(got.dtype, np.integer):
         acc.violation('dtype', 'segm.data', case, str(got.dtype), 'integer')
     fresh = SegmentationImage(got.copy())
-    for attr in ('labels', 'nlabels', 'max_label', 'slices', 'areas', 'bbox'):
+    for attr in ('labels', 'slices', 'areas'):
         a, b = getattr(segm, attr), getattr(fresh, attr)
         same = (list(a) == list(b)) if attr in ('slices', 'bbox') else np.array_equal(a, b)
         if not same:
@@ -147,7 +151,7 @@ def check_case(acc, code, shape, conn, npixels, form, seed, detect_sources, Segm
 
 def plan(tier, seed):
     units = []
-    for si, (shape, syms) in enumerate(spaces(tier)):
+    for si, (shape, syms, *_) in enumerate(spaces(tier)):
         n = len(syms) ** (shape[0] * shape[1])
         nsh = max(1, min(64, n // 4000))
         for j in range(nsh):
@@ -168,14 +172,15 @@ def run_unit(unit, tier, seed):
     from photutils.segmentation import SegmentationImage, detect_sources
     from photutils.utils.exceptions import NoDetectionsWarning
     if unit['kind'] == 'images':
-        shape, syms = spaces(tier)[unit['space']]
+        shape, syms, *rest = spaces(tier)[unit['space']]
         npx = shape[0] * shape[1]
+        npix_list = list(rest[0]) if rest else _npix_list(shape, tier)
         forms = ('scalar', 'map')
         for i, code in enumerate(itertools.product(syms, repeat=npx)):
             if i % unit['nshards'] != unit['shard']:
                 continue
             for conn in (4, 8):
-                for npixels in _npix_list(shape, tier):
+                for npixels in npix_list:
                     # the 2-D threshold form is run on a deterministic eighth of the codes
                     for form in (forms if i % 8 == 0 else forms[:1]):
                         check_case(acc, code, shape, conn, npixels, form, seed,
@@ -268,7 +273,8 @@ def replay(case, seed):
 
 def describe(tier, seed):
     return {'alphabet': {'symbols': '0 below, 1 == threshold, 2 above, 3 NaN, 4 +inf, 5 above-but-masked',
-                         'spaces': [{'shape': list(s), 'symbols': list(a), 'images': len(a) ** (s[0] * s[1])}
-                                    for s, a in spaces(tier)],
-                         'connectivity': [4, 8], 'npixels': '1,2,3,area',
+                         'spaces': [{'shape': list(s), 'symbols': list(a), 'images': len(a) ** (s[0] * s[1]),
+                                     'npixels': list(r[0]) if r else _npix_list(s, tier)}
+                                    for s, a, *r in spaces(tier)],
+                         'connectivity': [4, 8],
                          'threshold_form': 'scalar for every image, 2-D map for every 8th image (by product index)'}}
